@@ -225,7 +225,7 @@ pub fn gen_life(cs: &mut ChoiceStream, lc: &LifeCfg) -> Life {
     let mut opts = ConnOpts::default();
     opts.frame_max = cfm;
     opts.heartbeat = lc.heartbeat;
-    let tuning = Tuning { bound: *pick(cs, "bound", &[16usize, 1, 2]), high: 16 << 20, low: 0 };
+    let tuning = Tuning { bound: *pick(cs, "bound", &[16usize, 1, 2, 0]), high: 16 << 20, low: 0 };
     let plan = SessionPlan { opts, tuning, threads, owner_ops, close: CloseKind::Close, join_before_close };
     Life { gen: Generated { plan, net, broker, sched, frame_max }, chans, consumers, conn_end }
 }
